@@ -37,7 +37,12 @@ def ix_agg(prog: Program, res: Result) -> None:
         acc = [n for n in ast.walk(fi.node) if isinstance(n, ast.Call) and (dotted(n.func) or "").split(".")[-1] == "accumarray"]
         bad = [f for f in w.findings if not f.ok and f.rule in ("IX-dom", "IX-seq", "IX-pair")]
         where = prog.loc(fi, acc[0]) if acc else prog.loc(fi)
-        if not uniq or not acc:
+        filtered = [(n, r) for n, r in w.unique_inputs if r and r != "args"]
+        if filtered and short.endswith("from_aggregator"):
+            res.bad("IX-agg", short, desc, prog.loc(fi, filtered[0][0]),
+                    f"np.unique no longer sees all the subscripts passed in (its input follows `{filtered[0][1]}`): entries are removed before "
+                    "the reducer runs, so mean / min / prod of a group that contains explicit zeros (or the removed entries) is wrong")
+        elif not uniq or not acc:
             res.bad("IX-agg", short, desc, where, "np.unique(return_inverse) / accumarray pair is gone: duplicates are no longer aggregated")
         elif bad:
             res.bad("IX-agg", short, desc, prog.loc(fi, bad[0].node), f"{bad[0].desc}: {bad[0].detail}")
